@@ -41,7 +41,7 @@ m = {
                  'kind_free_text': 'clang++-14 -S -emit-llvm of /repo sources -> own LLVM-IR->C translator -> CBMC 6.11 (SAT) with symbolic inputs, per-harness bounds, unwinding assertions, reachability twins'}],
     'checks': checks,
     'not_applicable': na,
-    'notes': 'All checks: ./check <id> --tier quick|thorough. Exit 0 held / 1 confirmed VIOLATION / 2 inconclusive (bound too small, timeout, tool error, unconfirmed counterexample, native mismatch) - never success. Known findings and fix: commits: known-findings.txt. Repairs made in /repo (unguarded fix: commits): bd8cbfa7 (C37), f659fd56 (C33), e1fbd8ea (C34), 2775f49d (C09), 3be06c9e (C33), 8e9a1c19 (C03, C36), d88d7ff3 (C36), ba43844f (C34), a734ddf5 (C24), 5296801f (C25), 58026a27 (C04), cf0ee7ac (C30).',
+    'notes': 'All checks: ./check <id> --tier quick|thorough. Exit 0 held / 1 confirmed VIOLATION / 2 inconclusive (bound too small, timeout, tool error, unconfirmed counterexample, native mismatch) - never success. Known findings and fix: commits: known-findings.txt. Repairs made in /repo (unguarded fix: commits): bd8cbfa7 (C37), f659fd56 (C33), e1fbd8ea (C34), 2775f49d (C09), 3be06c9e (C33), 8e9a1c19 (C03, C36), d88d7ff3 (C36), ba43844f (C34), a734ddf5 (C24), 5296801f (C25), 58026a27 (C04), cf0ee7ac (C30), 13af947a (C34), f58ab412 (C27).',
 }
 json.dump(m, open(ROOT + '/MANIFEST.json', 'w'), indent=1)
 print('checks: %d, not_applicable: %d' % (len(checks), len(na)))
